@@ -163,36 +163,38 @@ theorem run_split (E : Env τ ω) (fuel : Nat) (s : St τ ω) (hne : (runLoop E 
       | (cases hf : finalize E s' with
          | mk o s'' => cases o <;> simp [outcomeOf])
 
-/-- **The sweep.** However the loop ended (no tasker left, nobody running, `KeyboardInterrupt` in an
-action or between passes, any other exception): with `ready` the deque at that moment, the run's events
-continue with exactly one send `ABORT` for each entry of a prefix `done` of `ready`, in deque order,
-and nothing else; the prefix is all of `ready` unless one of these sends raised (`sweepRaised`), in which
-case the raising send is the last one and the entries behind it (`todo`) receive nothing. -/
+/-- **The sweep** (as repaired by fix D03a). However the loop ended (no tasker left, nobody running,
+`KeyboardInterrupt` in an action or between passes, any other exception): with `ready` the deque at that
+moment, the run's events continue with exactly one send `ABORT` for each entry of a prefix `done` of `ready`,
+in deque order, and nothing else; the deque is empty afterwards. The prefix is all of `ready` — handlers that
+raise an `Exception` do not stop the sweep — unless a send raised something that is not an `Exception`
+(`sweepRaised`: a second Ctrl-C, `SystemExit`), in which case that send is the last one and the entries
+behind it (`todo`) receive nothing. -/
 theorem C03_sweep_events (E : Env τ ω) (fuel : Nat) (s : St τ ω) (hne : (runLoop E fuel s).1 ≠ .fuel) :
     ∃ done todo N, (runLoop E fuel s).2.ready = done ++ todo ∧
       (run E fuel s).2.events = (runLoop E fuel s).2.events ++ N ∧
       N.map Event.addr = done.map (fun e => (Phase.final, e.id, Control.abort)) ∧
-      (run E fuel s).2.ready = todo ∧
+      (run E fuel s).2.ready = [] ∧
       (sweepRaised E fuel s = false → todo = []) ∧
-      (sweepRaised E fuel s = true → ∃ pre last x, done = pre ++ [last] ∧
+      (sweepRaised E fuel s = true → ∃ pre last x, done = pre ++ [last] ∧ x.isException = false ∧
         ∃ ev ∈ N, ev.id = last.id ∧ ev.result = .raised x) := by
   obtain ⟨hst, _⟩ := run_split E fuel s hne
   obtain ⟨done, todo, N, h1, h2, h3, h4, _, h6, h7⟩ :=
     finalLoop_events E (runLoop E fuel s).2.ready (runLoop E fuel s).2 rfl
-  refine ⟨done, todo, N, h1, by rw [hst]; exact h3, h4, by rw [hst]; exact h2, ?_, ?_⟩
+  refine ⟨done, todo, N, h1, by rw [hst]; exact h3, h4, by rw [hst]; rfl, ?_, ?_⟩
   · intro h
     apply h6
     unfold sweepRaised at h
-    cases hf : (finalize E (runLoop E fuel s).2).1 with
-    | none => exact hf
+    cases hf : (finalLoop E (runLoop E fuel s).2.ready.length (runLoop E fuel s).2).1 with
+    | none => rfl
     | some x => rw [hf] at h; simp at h
   · intro h
     unfold sweepRaised at h
-    cases hf : (finalize E (runLoop E fuel s).2).1 with
+    cases hf : (finalLoop E (runLoop E fuel s).2.ready.length (runLoop E fuel s).2).1 with
     | none => rw [hf] at h; simp at h
     | some x =>
-      obtain ⟨pre, last, hd, ev, hev, hid, hres⟩ := h7 x hf
-      exact ⟨pre, last, x, hd, ev, hev, hid, hres⟩
+      obtain ⟨hnx, pre, last, hd, ev, hev, hid, hres⟩ := h7 x hf
+      exact ⟨pre, last, x, hd, hnx, ev, hev, hid, hres⟩
 
 /-- the property at full strength: every tasker still scheduled when the loop ends is sent exactly one
 abort (stated for the scripted environment of `Model/Sked.lean`) -/
@@ -202,9 +204,8 @@ def C03_full_sweep : Prop :=
     (runLoop ScriptEnv fuel s0).1 ≠ .fuel →
     ((run ScriptEnv fuel s0).2.events.filter (·.phase = .final)).map (·.id) = ids (runLoop ScriptEnv fuel s0).2.ready
 
-/-- **Partial: outside the region of D03a** (`sweepRaised = false`: no ABORT handler raised) every tasker
-still scheduled when the loop ended is sent exactly one ABORT, in deque order, and the deque is empty
-afterwards. -/
+/-- **Partial: outside the region of D03b** (`sweepRaised = false`: no ABORT handler raised anything but an
+`Exception`) every tasker still scheduled when the loop ended is sent exactly one ABORT, in deque order. -/
 theorem C03_sweep_aborts_each_once_partial (E : Env τ ω) (fuel : Nat) (s : St τ ω)
     (hne : (runLoop E fuel s).1 ≠ .fuel) (h : sweepRaised E fuel s = false) :
     ∃ N, (run E fuel s).2.events = (runLoop E fuel s).2.events ++ N ∧
@@ -216,28 +217,85 @@ theorem C03_sweep_aborts_each_once_partial (E : Env τ ω) (fuel : Nat) (s : St 
   simp only [List.append_nil] at h1
   exact ⟨N, h2, by rw [h1]; exact h3, h4⟩
 
+/-- **Handlers that raise an `Exception` do not cut the sweep**: if every exception that came out of a send of
+the sweep is an `Exception` (`RuntimeError`, …; whatever the taskers did), every remaining tasker got its ABORT;
+and then what leaves `run` from the sweep is the first of these exceptions, raised after the last ABORT. -/
+theorem C03_sweep_survives_exceptions (E : Env τ ω) (fuel : Nat) (s : St τ ω)
+    (hne : (runLoop E fuel s).1 ≠ .fuel)
+    (hall : ∀ ev ∈ (run E fuel s).2.events, ev.phase = .final → ∀ x, ev.result = .raised x → x.isException = true) :
+    sweepRaised E fuel s = false ∧
+    (∃ N, (run E fuel s).2.events = (runLoop E fuel s).2.events ++ N ∧
+      N.map Event.addr = (runLoop E fuel s).2.ready.map (fun e => (Phase.final, e.id, Control.abort))) ∧
+    (finalize E (runLoop E fuel s).2).1 = firstFailure (run E fuel s).2.events := by
+  obtain ⟨done, todo, N, h1, h2, h3, h4, h5, h6⟩ := C03_sweep_events E fuel s hne
+  have hsw : sweepRaised E fuel s = false := by
+    cases hs : sweepRaised E fuel s with
+    | false => rfl
+    | true =>
+      obtain ⟨pre, last, x, _, hnx, ev, hev, _, hres⟩ := h6 hs
+      have hph : ev.phase = .final := by
+        have : ev.addr ∈ N.map Event.addr := List.mem_map_of_mem hev
+        rw [h3] at this
+        obtain ⟨e, _, he⟩ := List.mem_map.mp this
+        have := congrArg Prod.fst he
+        simpa [Event.addr] using this.symm
+      have := hall ev (by rw [h2]; exact List.mem_append_right _ hev) hph x hres
+      rw [hnx] at this; simp at this
+  have htodo := h5 hsw
+  subst htodo
+  simp only [List.append_nil] at h1
+  refine ⟨hsw, ⟨N, h2, by rw [h1]; exact h3⟩, ?_⟩
+  have hev : (run E fuel s).2.events = (finalLoop E (runLoop E fuel s).2.ready.length (runLoop E fuel s).2).2.events := by
+    rw [(run_split E fuel s hne).1]; rfl
+  unfold sweepRaised at hsw
+  rw [hev]
+  unfold finalize
+  simp only []
+  cases hf : (finalLoop E (runLoop E fuel s).2.ready.length (runLoop E fuel s).2).1 with
+  | none => rfl
+  | some x => rw [hf] at hsw; simp at hsw
+
 /-- two taskers; both are told to stop in pass 1 and are stopped in pass 2, which ends the loop; the
-first one's generator raises when it is resumed with ABORT (its 4th send) -/
-def sweepCrashWitness : Config Rat :=
+first one's generator raises `x` when it is resumed with ABORT (its 4th send) -/
+def sweepCrashWitness (x : Exc) : Config Rat :=
   { period := 1/8, stamp := 0, houses := [{ fronts := [0], mids := [1], backs := [] }],
     taskers := [
-      { active := true, period := 0, script := [(3, [.raise (.exception "RuntimeError")])] },
+      { active := true, period := 0, script := [(3, [.raise x])] },
       { active := true, period := 0, tail := some (1, [.bid [0, 1] .stop none]) }] }
 
-/-- **Counterexample (D03a).** The sweep sends ABORT to tasker 0, whose handler raises; tasker 1 is still
-in the deque and never receives an abort; the exception leaves `run`. -/
+/-- **Counterexample (D03b).** A second `KeyboardInterrupt` arrives while the sweep aborts tasker 0: tasker 1,
+which is still scheduled, never receives an abort; the interrupt leaves `run`. -/
 theorem C03_counterexample_sweep_crash : ¬ C03_full_sweep := by
   intro h
-  have := h sweepCrashWitness 50 (by decide +kernel) (by decide +kernel)
+  have := h (sweepCrashWitness .keyboardInterrupt) 50 (by decide +kernel) (by decide +kernel)
   revert this
   decide +kernel
 
-/-- … and in that run: the only send of the sweep is to tasker 0, tasker 1 stays in the deque, `run` raises -/
+/-- … in that run: the only send of the sweep is to tasker 0, the deque is cleared, `run` raises -/
 example :
-    let s0 := start ScriptEnv sweepCrashWitness.period sweepCrashWitness.stamp sweepCrashWitness.houses sweepCrashWitness.taskers
+    let c := sweepCrashWitness .keyboardInterrupt
+    let s0 := start ScriptEnv c.period c.stamp c.houses c.taskers
     ((run ScriptEnv 50 s0).2.events.filter (·.phase = .final)).map (·.id) = [0] ∧
-    ids (run ScriptEnv 50 s0).2.ready = [1] ∧ (run ScriptEnv 50 s0).1 = .raised (.exception "RuntimeError") ∧
+    (run ScriptEnv 50 s0).2.ready = [] ∧ (run ScriptEnv 50 s0).1 = .raised .keyboardInterrupt ∧
     sweepRaised ScriptEnv 50 s0 = true := by
+  decide +kernel
+
+/-- with an `Exception` instead (the witness of D03a), the repaired sweep goes on: both taskers are aborted,
+then the `RuntimeError` leaves `run` … -/
+example :
+    let c := sweepCrashWitness (.exception "RuntimeError")
+    let s0 := start ScriptEnv c.period c.stamp c.houses c.taskers
+    ((run ScriptEnv 50 s0).2.events.filter (·.phase = .final)).map (·.id) = [0, 1] ∧
+    (run ScriptEnv 50 s0).1 = .raised (.exception "RuntimeError") ∧ sweepRaised ScriptEnv 50 s0 = false := by
+  decide +kernel
+
+/-- **… whereas before the repair (finding D03a)** the old `finally:` clause (`runOld`) stopped at tasker 0's
+`RuntimeError`: tasker 1 was never aborted and stayed in the deque. -/
+theorem C03_old_sweep_stopped_at_exception :
+    let c := sweepCrashWitness (.exception "RuntimeError")
+    let s0 := start ScriptEnv c.period c.stamp c.houses c.taskers
+    ((runOld ScriptEnv 50 s0).2.events.filter (·.phase = .final)).map (·.id) = [0] ∧
+    ids (runOld ScriptEnv 50 s0).2.ready = [1] ∧ (runOld ScriptEnv 50 s0).1 = .raised (.exception "RuntimeError") := by
   decide +kernel
 
 /-- **Aborted taskers are not swept.** An entry of `aborted` (self-aborted, generator returned) is not in
@@ -248,8 +306,8 @@ theorem C03_aborted_not_swept (E : Env τ ω) (fuel : Nat) (s : St τ ω) (hnd :
   (runLoop_inv (abortedOut_step E) fuel s ⟨hnd, h0⟩).out
 
 /-- **Exceptions are re-raised, after the sweep.** What `run` returns is determined by how the loop ended
-and by the sweep: an exception raised in the sweep leaves `run`; otherwise an exception that ended the loop
-leaves `run` unless it was `KeyboardInterrupt`, which (like the two normal endings) makes `run` return. -/
+and by the sweep: an exception raised in the sweep leaves `run` (the first `Exception` caught while aborting, after the sweep; or at once a `BaseException` that
+cut the sweep); otherwise an exception that ended the loop leaves `run` unless it was `KeyboardInterrupt`, which (like the two normal endings) makes `run` return. -/
 theorem C03_outcome (E : Env τ ω) (fuel : Nat) (s : St τ ω) (hne : (runLoop E fuel s).1 ≠ .fuel) :
     (run E fuel s).1 = outcomeOf (runLoop E fuel s).1 (finalize E (runLoop E fuel s).2).1 ∧
     (∀ x, classify x = .interrupted ↔ x = .keyboardInterrupt) ∧
@@ -428,10 +486,19 @@ example :
       [(0, .abort, .yielded .aborted), (1, .abort, .yielded .aborted)] := by
   decide +kernel
 
-/-- the same with the 5th action (framer 0's first exit action, in the sweep) raising: framer 1 is never aborted -/
+/-- the same with the 5th action (framer 0's first exit action, in the sweep) raising an `Exception`: the sweep
+goes on, framer 1 exits its frame and is aborted, then the exception leaves `run` -/
 example :
     let p := { demoLoop with crash := some (5, .exception "RuntimeError") }
     (p.run 50).1 = .raised (.exception "RuntimeError") ∧
+    ((p.run 50).2.events.filter (·.phase = .final)).map (·.id) = [0, 1] ∧
+    ((p.run 50).2.world.framers 1).actives = [] := by
+  decide +kernel
+
+/-- … and raising a second `KeyboardInterrupt` (D03b): framer 1 is never aborted and keeps its frame entered -/
+example :
+    let p := { demoLoop with crash := some (5, .keyboardInterrupt) }
+    (p.run 50).1 = .raised .keyboardInterrupt ∧
     ((p.run 50).2.events.filter (·.phase = .final)).map (·.id) = [0] ∧
     ((p.run 50).2.world.framers 1).actives = [0] := by
   decide +kernel
